@@ -64,7 +64,7 @@ def scenario(case):
     return scn
 
 
-def run(case, scn, workdir):
+def run(case, scn, workdir, crash_at=None, resume=None, collect=False, probes=True):
     import jax
     import jax.numpy as jnp
 
@@ -82,6 +82,8 @@ def run(case, scn, workdir):
     seam = BlackjaxSeam()
     prev = install(seam)
     model = JaxModel(t)
+    model.crash_at_concrete_like = crash_at
+    payloads = []  # (iteration, pickled checkpoint state) handed to the callback, in order
     calls = []  # resampling calls: population before the draw, indices drawn
     holder = {}
     deferred = []  # (kernel number, probe z, values) evaluated while the kernel's transform is still the fitted one
@@ -89,7 +91,7 @@ def run(case, scn, workdir):
     def probe_previous_kernel():
         """Evaluate the log-density function of the kernel that has just finished at simulator-chosen points.  Called before
         the next resampling draw (and after the run): the preconditioning has not been refitted since that kernel."""
-        if not seam.kernels or len(deferred) >= len(seam.kernels):
+        if not probes or not seam.kernels or len(deferred) >= len(seam.kernels):
             return
         k = len(seam.kernels) - 1
         rec = seam.kernels[k]
@@ -142,20 +144,39 @@ def run(case, scn, workdir):
                    flow_backend="simflow", kind="jnative", seed=scn["flow"]["seed"], inflate=scn["flow"]["inflate"])
         holder["A"] = A
         A.fit(Samples(training_samples(scn), parameters=t.parameters, xp=jnp))
+        extra = {}
+        if collect or resume is not None:
+            import pickle
+
+            def _cb(state):
+                payloads.append((state.get("iteration"), pickle.dumps(state, protocol=pickle.HIGHEST_PROTOCOL)))
+
+            extra["checkpoint_callback"] = _cb
+            extra["checkpoint_every"] = 1
+        if resume is not None:
+            extra["resume_from"] = resume
         try:
             samples, hist = A.sample_posterior(
                 scn["n_samples"], sampler="blackjax_smc", rng=g, rng_key=jax.random.key(int(scn["seeds"]["key"])),
                 preconditioning=scn["preconditioning"], preconditioning_kwargs=scn["preconditioning_kwargs"],
-                return_history=True, **sk)
+                return_history=True, **extra, **sk)
             jax.effects_barrier()
             probe_previous_kernel()
             out.update(samples=samples, history=hist, flow=A.flow)
-        except (SimModelError, ValueError, FloatingPointError) as e:
+        except SimModelError as e:
+            out.update(status="crashed", error=f"{type(e).__name__}: {e}")
+        except (ValueError, FloatingPointError) as e:
             out.update(status="failed", error=f"{type(e).__name__}: {e}")
     finally:
         es.__exit__(None, None, None)
         install(prev)
-    out.update(seam=seam, calls=calls, deferred=deferred, model=model, where=where)
+        try:
+            # every run traces fresh closures: drop the compiled programs, or a process that runs many of them exhausts its
+            # memory mappings ("LLVM ERROR: Unable to allocate section memory")
+            jax.clear_caches()
+        except Exception:
+            pass
+    out.update(seam=seam, calls=calls, deferred=deferred, model=model, where=where, payloads=payloads)
     return out
 
 
@@ -363,3 +384,53 @@ def judge(case, workdir, scn, want):
             "iterations": len(res.history.beta), "probes": probes, "faults_fired": {},
             "nontrivial_keys": [["blackjax_smc", scn["_precond"], scn["_schedule_mode"], scn["sample_kwargs"].get("n_final_samples") is not None]],
             "digest": _digest_run(r), "sample": jsonable({"blackjax": True, "betas": [float(to_np(b)) for b in res.history.beta]})}
+
+
+def judge_resume(case, workdir, scn):
+    """C11 for BlackJAXSMC: crash at eager likelihood calls (the evaluation of the initial population and the one after every
+    kernel), restart from the last payload the checkpoint callback received (bytes), same arguments, same key, same
+    generator seed: the resumed run must finish exactly like the uninterrupted one."""
+    scn = {**scn, "target": {**scn["target"], "nan_region": None}}
+    ref = run(case, scn, workdir, collect=True, probes=False)
+    where = {**ref["where"], "route": "bytes"}
+    if ref["status"] != "ok":
+        return {"violations": [], "aborted": {"why": "reference run did not finish", "error": ref["error"]}, "evaluations": 1, "events": 0,
+                "nontrivial_keys": [], "digest": digest_of(ref["status"]), "probes": {}}
+    if any(not np.all(np.isfinite(np.asarray(to_np(p.x), dtype=np.float64))) for p in list(ref["history"].sample_history) + [ref["samples"]]):
+        return {"violations": [], "aborted": {"why": "population collapsed onto one point (whitening undefined)"}, "evaluations": 1,
+                "events": 0, "nontrivial_keys": [], "digest": digest_of("collapsed"), "probes": {"collapsed_population": 1}}
+    d_ref = _digest_run(ref)
+    n_calls = ref["model"].n_concrete_like_calls
+    V, evaluations, resumes, states = [], 1, 0, set()
+    for k in range(1, n_calls):
+        c = run(case, scn, workdir, crash_at=k, collect=True, probes=False)
+        evaluations += 1
+        if c["status"] != "crashed":
+            continue
+        if not c["payloads"]:
+            continue
+        it, blob = c["payloads"][-1]
+        if it in states:
+            continue
+        states.add(it)
+        r = run(case, scn, workdir, resume=blob, probes=False)
+        evaluations += 1
+        resumes += 1
+        wr = {**where, "resumed_iteration": it}
+        if r["status"] != "ok":
+            V.append(O.violation("c11.resume_failed", f"BlackJAXSMC resumed from the iteration-{it} checkpoint raised {r['error']}", wr))
+            continue
+        hb_ref = [float(to_np(b)) for b in ref["history"].beta]
+        hb = [float(to_np(b)) for b in r["history"].beta]
+        if hb != hb_ref:
+            V.append(O.violation("c11.schedule", f"BlackJAXSMC resumed via bytes from iteration {it} (crash at eager likelihood call {k}): "
+                                 f"temperatures {hb} differ from the uninterrupted run's {hb_ref}", wr))
+        elif _digest_run(r) != d_ref:
+            dx = float(np.max(np.abs(np.asarray(to_np(r["samples"].x), dtype=np.float64) - np.asarray(to_np(ref["samples"].x), dtype=np.float64)))) \
+                if np.shape(to_np(r["samples"].x)) == np.shape(to_np(ref["samples"].x)) else None
+            V.append(O.violation("c11.populations", f"BlackJAXSMC resumed via bytes from iteration {it} (crash at eager likelihood call {k}): the final "
+                                 f"population / evidence differ from the uninterrupted run (max |dx| = {dx})", wr))
+    return {"violations": V, "aborted": None, "evaluations": evaluations, "events": n_calls, "iterations": len(ref["history"].beta),
+            "probes": {"blackjax_resumed_runs": resumes, "blackjax_crash_points": n_calls - 1}, "faults_fired": {"crash_like": evaluations - 1 - resumes, "restart:bytes": resumes},
+            "nontrivial_keys": [["blackjax_smc", scn["_precond"], scn["_schedule_mode"], "resumed"]] if resumes else [],
+            "digest": d_ref, "sample": jsonable({"blackjax": True, "resumed_from": sorted(x for x in states if x is not None)})}
